@@ -128,7 +128,8 @@ TraceNext ==
           /\ ((\E i \in IDs : KF_LockOverTomb(S', epoch', i)) => PrintT("KF {\"C01-lock-overrides-tombstone\"}"))
           /\ ((\E i \in IDs : KF_FirstLockOnly(S', epoch', i)) => PrintT("KF {\"C07-first-lock-only\"}"))
           /\ ((e.ev = "Put" /\ Cat[e.o].typ = "LOCK" /\ e.res = "ok" /\ S.stored[e.o] = "absent"
-                /\ KF_LockOnExpiredTombstoned(S, epoch, Cat[e.o].tgt)) => PrintT("KF {\"C07-lock-on-expired-tombstoned\"}"))
+                /\ (KF_LockOnExpiredTombstoned(S, epoch, Cat[e.o].tgt) \/ KF_LockOverTomb(S, epoch, Cat[e.o].tgt)))
+                   => PrintT("KF {\"C07-lock-on-expired-tombstoned\"}"))
           /\ ((e.ev = "Resync" /\ KF_ResyncConflict(S, epoch)) => PrintT("KF {\"C18-live-lock-and-tombstone-blobs\"}"))
           /\ ((e.ev = "Resync" /\ KF_ResyncOrphan(S)
                 /\ \E c \in IDs : S'.blob[c] /\ Cat[c].par # 0 /\ ~Has(S', c) /\ S'.garb[c] = "none")
